@@ -12,8 +12,8 @@ META = {
     "property_id": "C41",
     "level": "model_checking",
     "technique": "TLA+ spec Privileges.tla (PersistReload is the identity on the access-control state; property ReloadIdentity model-checked by TLC); TLC-generated account/grant/role histories replayed on the real engine, persisted with MySQLDb.Persist and loaded with LoadData into a fresh engine inside and after every history; SHOW GRANTS sets, stored privilege state and probe matrices before/after validated by TLC against Trace_Privileges.tla",
-    "text": "TLC generates histories of CREATE/DROP USER/ROLE, GRANT/REVOKE (privilege sets and ALL at global/database/table level, WITH GRANT OPTION), GRANT/REVOKE role (WITH ADMIN OPTION) and Persist/Reload steps. The replayer executes them as a super user; a Persist/Reload step serialises the privilege database through the persister interface and continues the history on a fresh engine loaded from those bytes (the stored state read back must be the specification state, which the step leaves unchanged). After every history the same is done once more and SHOW GRANTS FOR every account (as sets of lines), the stored privilege sets / role edges / locked flags / password hashes, and the allow/deny outcome of every probe statement for every user are compared before vs. after, and the after-matrix is judged against Allowed on the unchanged specification state.",
-    "note": "Compared: what the property names (SHOW GRANTS output, allow/deny decisions) plus the stored state of the model's accounts. Not compared: dynamic/column/routine privileges, replica source info, password_last_changed, attributes. The replayer's own administrator is an ephemeral super user (never persisted); the persisted super user root@localhost is part of the SHOW GRANTS comparison. Trusted: TLC, the reading of mysql_db's tables in harness/cmd/priv.",
+    "text": "TLC generates histories of CREATE/DROP USER/ROLE, GRANT/REVOKE (privilege sets and ALL at global/database/table level, WITH GRANT OPTION), GRANT/REVOKE of the dynamic privileges REPLICATION_SLAVE_ADMIN and CLONE_ADMIN ON *.* (each held one with its own grant-option flag; the generator steers towards accounts holding both with different flags), GRANT/REVOKE role (WITH ADMIN OPTION) and Persist/Reload steps. The replayer executes them as a super user; a Persist/Reload step serialises the privilege database through the persister interface and continues the history on a fresh engine loaded from those bytes (the stored state read back must be the specification state, which the step leaves unchanged). After every history the same is done once more and SHOW GRANTS FOR every account (as sets of lines), the stored privilege sets (static atoms and dynamic privileges with their flags) / role edges / locked flags / password hashes, and the allow/deny outcome of every probe statement for every user are compared before vs. after, and the after-matrix is judged against Allowed on the unchanged specification state; the dynamic privileges SHOW GRANTS prints after the reload (name, WITH GRANT OPTION or not) must be the ones of the specification state.",
+    "note": "Compared: what the property names (SHOW GRANTS output, allow/deny decisions) plus the stored state of the model's accounts. Not compared: column/routine privileges, dynamic privileges other than the two the engine lets GRANT name, replica source info, password_last_changed, attributes. Dynamic privileges follow Privileges.tla: global only, GRANT ALL ON *.* does not include them (engine: grantAllGlobalPrivileges is documented as static-only; MySQL's ALL does include them), REVOKE ALL ON *.* removes them, WITH GRANT OPTION on a dynamic grant also is the static global GRANT OPTION; re-granting a dynamic privilege without the option it is held with, and GRANT/REVOKE of the static global GRANT OPTION while dynamic privileges are held, are not generated. The probe matrix has one statement that needs a dynamic privilege (STOP REPLICA: REPLICATION_SLAVE_ADMIN; 'no replication controller available' counts as allowed). The replayer's own administrator is an ephemeral super user (never persisted); the persisted super user root@localhost is part of the SHOW GRANTS comparison. Trusted: TLC, the reading of mysql_db's tables in harness/cmd/priv.",
     "design_ref": "§7 C41, §3.3",
 }
 
@@ -69,8 +69,12 @@ def check(tier):
         nonempty = sum(1 for e in b.events if e["ev"] == "reload" and
                        (e["stb"]["edges"] or any(a["g"] for a in e["stb"]["accts"])))
         rows = sum(s["rows"] for s in sts)
-        if reloads < 30 or nonempty < 20 or rows < 3000:
-            raise lib.Inconclusive("vacuous: %d reloads (%d of non-empty states), %d probe rows" % (reloads, nonempty, rows))
+        def dynflags(e):
+            return [{d["wgo"] for d in a.get("d", [])} for a in e["stb"]["accts"]]
+        with_dyn = sum(1 for e in b.events if e["ev"] == "reload" and any(f for f in dynflags(e)))
+        mixed_dyn = sum(1 for e in b.events if e["ev"] == "reload" and any(len(f) == 2 for f in dynflags(e)))
+        if reloads < 30 or nonempty < 20 or rows < 3000 or mixed_dyn < 3:
+            raise lib.Inconclusive("vacuous: %d reloads (%d of non-empty states, %d with an account holding two dynamic privileges with different grant-option flags), %d probe rows" % (reloads, nonempty, mixed_dyn, rows))
         some = next(e for e in b.events if e["ev"] == "reload" and e["stb"]["edges"] and any(a["g"] for a in e["stb"]["accts"]))
         rc = v.finish()
         lib.write_evidence("C41", tier, "model_checking", {
@@ -79,7 +83,8 @@ def check(tier):
             "samples": [{"history": [t["act"] for t in b.hist[some["h"]][1]], "show_grants_before": some["gb"], "show_grants_after": some["ga"]}],
             "evaluations": reloads,
             "distinct_nontrivial": nonempty,
-            "rule": "evaluations = persist -> load-into-fresh-engine round trips compared (Persist/Reload steps inside histories + one after every history); non-trivial = the reloaded state holds at least one grant or role edge; %d probe outcomes compared before/after and judged against Allowed" % rows,
+            "rule": "evaluations = persist -> load-into-fresh-engine round trips compared (Persist/Reload steps inside histories + one after every history); non-trivial = the reloaded state holds at least one grant or role edge; %d probe outcomes compared before/after and judged against Allowed; %d of the end-of-history round trips with dynamic privileges, %d with an account holding two of them with different grant-option flags" % (rows, with_dyn, mixed_dyn),
+            "reloads_with_dynamic_privileges": with_dyn, "reloads_with_mixed_grant_option_flags": mixed_dyn,
             "model_check": {"config": mc_cfg, "depth": r.depth, "tlc_wall_s": round(r.wall, 1), "property": "ReloadIdentity"},
             "simulated": {"config": sim_cfg, "histories": srep["extra"]["histories"], "depth": depth, "steps": srep["cases"],
                           "by_action": srep["extra"]["by_action"]},
